@@ -85,13 +85,14 @@ AcceptsLines(t) == t \in {"para", "code", "html"}
 RECURSIVE EndsBlank(_)
 EndsBlank(nd) == IF nd.t \in {"list", "item"} /\ nd.kids # <<>> THEN EndsBlank(Last(nd.kids)) ELSE nd.llb
 
+(* paragraphs that consisted only of link reference definitions are gone before tightness is computed (reference algorithm) *)
+RealKids(nd) == SelectSeq(nd.kids, LAMBDA k : k.t # "refs")
 Tight(items) ==
   LET n == Len(items) IN
   ~ \E i \in 1..n :
         \/ (items[i].llb /\ i < n)
-        \/ \E j \in 1..Len(items[i].kids) :
-              (i < n \/ j < Len(items[i].kids)) /\ items[i].kids[j].t # "refs" /\ EndsBlank(items[i].kids[j])
-
+        \/ \E j \in 1..Len(RealKids(items[i])) :
+              (i < n \/ j < Len(RealKids(items[i]))) /\ EndsBlank(RealKids(items[i])[j])
 
 (* ---- link reference definitions (spec section 4.7) ---------------------------------------------------------------
    When a paragraph is finished (and before a setext underline turns it into a heading) the definitions at the START of
